@@ -322,17 +322,11 @@ def _alg_pre(nm, v, form, pos, n, o1, o2, o3):
     return True
 
 
-def expand_shrink_algebra(nm: str, v: str, form: int, pos: int, n: int, o1: int, o2: int, o3: int) -> bool:
-    """
-    pre: _alg_pre(nm, v, form, pos, n, o1, o2, o3)
-    post: _
-    """
-    s = _annotation(nm, v, form, pos)
+def _run_ops(s, ops):
     h = HedString(s, MINI, _DD)
     a = D.Annot(s, _REF_DEFS)
     if not a.ok:
         return h.children == []
-    ops = _ops(n, o1, o2, o3)
     st = _trace(None, ops)
     if str(h) != a.render(st[0]):
         return False
@@ -354,6 +348,28 @@ def expand_shrink_algebra(nm: str, v: str, form: int, pos: int, n: int, o1: int,
         if o == COPY and str(old) != want:
             return False
     return True
+
+
+def expand_shrink_algebra(nm: str, v: str, form: int, pos: int, n: int, o1: int, o2: int, o3: int) -> bool:
+    """
+    pre: _alg_pre(nm, v, form, pos, n, o1, o2, o3)
+    post: _
+    """
+    return _run_ops(_annotation(nm, v, form, pos), _ops(n, o1, o2, o3))
+
+
+# four-operation histories in which a COPY is taken after the object has been through a full expand/shrink cycle
+_SEQS4 = [[EXPAND, SHRINK, COPY, EXPAND], [EXPAND, COPY, SHRINK, EXPAND], [EXPAND, SHRINK, COPY, SHRINK],
+          [COPY, EXPAND, SHRINK, EXPAND], [EXPAND, SHRINK, EXPAND, COPY]]
+
+
+def copy_after_cycle(nm: str, v: str, pos: int, k: int) -> bool:
+    """
+    pre: 0 <= k < len(_SEQS4) and _env_is("VP_K", k)
+    pre: _alg_pre(nm, v, 0, pos, 0, 0, 0, 0)
+    post: _
+    """
+    return _run_ops(_annotation(nm, v, 0, pos), _SEQS4[k])
 
 
 # =============================================================================================== kernel 3
@@ -624,6 +640,15 @@ HARNESSES = [
         what="a second definition whose label equals an accepted one case-insensitively is reported exactly once "
              "and ignored (the first entry stays untouched); any other acceptable one is added silently",
         oracle="models/defs_ref.py accept_all() (D6)", stubs=_STUBS + _STUB_DICT, outside=_OUT),
+    R.H("copy_after_cycle", _T_ALG,
+        quick=R.tier(cells=[{"VP_WHICH": w, "VP_K": k} for w in range(3) for k in range(len(_SEQS4))],
+                     env={"VP_N": 1, "VP_M": 3, "VP_NDEFS": 3, "VP_POSSET": 1, "VP_NODELIM": 1}, timeout=400,
+                     bound="as expand_shrink_algebra (quick) with U = Def/<nm>[/<v>], for five fixed histories of four "
+                           "operations in which a copy is taken after an expand/shrink cycle"),
+        what="a copy taken after the object went through expand and shrink behaves like a fresh object: expanding or "
+             "shrinking the copy gives the reference rendering and leaves the source as it was",
+        oracle="models/defs_ref.py Annot.render", stubs=_STUBS,
+        outside="longer histories"),
     R.H("expand_shrink_algebra", _T_ALG,
         quick=R.tier(cells=_alg_cells_quick(3),
                      env={"VP_N": 1, "VP_M": 3, "VP_NDEFS": 3, "VP_POSSET": 1, "VP_NODELIM": 1}, timeout=400,
